@@ -515,93 +515,133 @@ async fn scenario(a: &ShardArgs, idx: u64) {
         }
         settle().await;
         pair.pump();
-        // ---- fetch
-        let mut ids: Vec<(u64, String)> = vec![];
+        // ---- fetch: reads are made one after the other so that every record can be attributed to its request
+        // (what, request, explicitly requested event variation (type, var), explicitly requested static variation (type, var))
+        let mut fetches: Vec<(String, Option<UserReq>, Option<(usize, u8)>, Option<(usize, u8)>)> = vec![];
         if unsol {
-            // the outstation reports by itself; wait for it
-            pair.run_until(5000, |_| false, |_, _| {}).await;
+            fetches.push(("unsolicited".into(), None, None, None));
         } else {
-            let id = pair.m.submit(0, UserReq::ReadClasses([false, true, true, true]));
-            ids.push((id, "events".into()));
+            // sometimes one type's events are fetched by type with an explicit variation (all of them or a limited count) first
+            if r.chance(1, 2) {
+                let t = r.usize_below(7);
+                let v = if r.chance(1, 4) { 0 } else { *r.pick(evars(t)) };
+                let kind = r.below(3) as u8;
+                let n = *r.pick(&[1u16, 2, 5, 255, 256, 65535]);
+                let rq = match kind {
+                    0 => UserReq::ReadHeaders(vec![(0, EVENT_GROUP[t], v, 0, 0)]),
+                    1 => UserReq::ReadHeaders(vec![(3, EVENT_GROUP[t], v, n.min(255), 0)]),
+                    _ => UserReq::ReadHeaders(vec![(4, EVENT_GROUP[t], v, n, 0)]),
+                };
+                fetches.push((format!("events g{}v{v} kind{kind}", EVENT_GROUP[t]), Some(rq), if v == 0 { None } else { Some((t, v)) }, None));
+            }
+            fetches.push(("events by class".into(), Some(UserReq::ReadClasses([false, true, true, true])), None, None));
         }
-        match r.below(3) {
-            0 => ids.push((pair.m.submit(0, UserReq::ReadClasses([true, false, false, false])), "class0".into())),
-            1 => {
-                let (t, _, _, _, _) = *r.pick(&layout);
-                if t < 7 {
-                    let v = *r.pick(svars(t));
-                    ids.push((pair.m.submit(0, UserReq::ReadRange16(STATIC_GROUP[t], v, 0, 65535)), format!("g{}v{v}", STATIC_GROUP[t])));
-                }
+        match r.below(5) {
+            0 => fetches.push(("class0".into(), Some(UserReq::ReadClasses([true, false, false, false])), None, None)),
+            1 | 2 | 3 => {
+                let t = r.usize_below(7);
+                let v = if r.chance(1, 4) { 0 } else { *r.pick(svars(t)) };
+                let kind = r.below(3) as u8;
+                let rq = match kind {
+                    0 => UserReq::ReadHeaders(vec![(0, STATIC_GROUP[t], v, 0, 0)]),
+                    1 => UserReq::ReadHeaders(vec![(1, STATIC_GROUP[t], v, 0, 255)]),
+                    _ => UserReq::ReadHeaders(vec![(2, STATIC_GROUP[t], v, 0, 65535)]),
+                };
+                fetches.push((format!("static g{}v{v} kind{kind}", STATIC_GROUP[t]), Some(rq), None, if v == 0 { None } else { Some((t, v)) }));
             }
             _ => {}
         }
-        settle().await;
-        pair.pump();
-        let idl: Vec<u64> = ids.iter().map(|x| x.0).collect();
-        let fin = pair.run_until(120_000, |pr| idl.iter().all(|i| pr.m.result_of(*i).is_some()) && pr.in_flight.is_empty(), |_, _| {}).await;
-        if !fin {
-            out::count("harness_read_not_finished", 1);
-        }
-        for (id, what) in &ids {
-            let res = pair.m.result_of(*id).map(|x| x.3);
-            hist.push(format!("round {round}: read {what} -> {res:?}"));
-            if let Some(txt) = res {
-                if !txt.starts_with("Ok") {
-                    violations.push(("read_failed".into(), what.clone(), format!("read {what} failed: {txt}")));
+        for (what, rq, want_ev, want_sv) in fetches {
+            match rq {
+                None => {
+                    // the outstation reports by itself; wait for it
+                    pair.run_until(5000, |_| false, |_, _| {}).await;
                 }
-            }
-        }
-        // ---- judge what reached the handler
-        let items = pair.m.assocs[0].2.take();
-        for it in items {
-            let Item::M(rec) = it else { continue };
-            let Some(t) = PTYPES.iter().position(|p| *p == rec.ptype) else {
-                violations.push(("unexpected_type".into(), format!("{:?}", rec.ptype), format!("handler received {rec:?}")));
-                continue;
-            };
-            out::eval(1);
-            let key = (t, rec.index);
-            let which = if rec.is_event { "event" } else { "static" };
-            if rec.is_event {
-                if rec.group != EVENT_GROUP[t] {
-                    violations.push(("group".into(), format!("t{t}"), format!("event of type {t} delivered as g{}v{}", rec.group, rec.var)));
-                    continue;
-                }
-                let Some(src) = pending.get_mut(&key).and_then(|q| q.pop_front()) else {
-                    violations.push(("phantom_event".into(), format!("t{t}"), format!("event {rec:?} for a point without pending updates (shifted to another index?)")));
-                    continue;
-                };
-                // configured event variation (octet strings: by length)
-                let ev = layout.iter().find(|l| l.0 == t && l.1 == rec.index).map(|l| l.3).unwrap_or(0);
-                if t != 7 && rec.var != ev {
-                    violations.push(("event_variation".into(), format!("g{}v{}", rec.group, rec.var), format!("event delivered as g{}v{}, configured variation {ev}", rec.group, rec.var)));
-                }
-                match judge(&rec, &src) {
-                    Ok(()) => {
-                        out::count("event_values_ok", 1);
-                        out::count(&format!("ok_g{}v{}", rec.group, rec.var), 1);
-                        if rec.group == 2 && rec.var == 3 || rec.group == 4 && rec.var == 3 {
-                            out::count("relative_time_reconstructed_ok", 1);
+                Some(rq) => {
+                    let id = pair.m.submit(0, rq);
+                    settle().await;
+                    pair.pump();
+                    let fin = pair.run_until(120_000, |pr| pr.m.result_of(id).is_some() && pr.in_flight.is_empty(), |_, _| {}).await;
+                    if !fin {
+                        out::count("harness_read_not_finished", 1);
+                    }
+                    let res = pair.m.result_of(id).map(|x| x.3);
+                    hist.push(format!("round {round}: read {what} -> {res:?}"));
+                    if let Some(txt) = res {
+                        if !txt.starts_with("Ok") {
+                            violations.push(("read_failed".into(), what.split(' ').next().unwrap_or("").to_string(), format!("read {what} failed: {txt}")));
                         }
                     }
-                    Err((rule, why)) => violations.push((rule, format!("{which}|g{}v{}", rec.group, rec.var), format!("{why}; source {src:?}; delivered {rec:?}"))),
                 }
-            } else {
-                if rec.group != STATIC_GROUP[t] {
-                    violations.push(("group".into(), format!("t{t}"), format!("static value of type {t} delivered as g{}v{}", rec.group, rec.var)));
-                    continue;
-                }
-                let Some(src) = latest.get(&key) else {
-                    // never updated: initial value, nothing to compare
-                    out::count("static_initial_value_skipped", 1);
+            }
+            // ---- judge what reached the handler
+            let items = pair.m.assocs[0].2.take();
+            for it in items {
+                let Item::M(rec) = it else { continue };
+                let Some(t) = PTYPES.iter().position(|p| *p == rec.ptype) else {
+                    violations.push(("unexpected_type".into(), format!("{:?}", rec.ptype), format!("handler received {rec:?}")));
                     continue;
                 };
-                match judge(&rec, src) {
-                    Ok(()) => {
-                        out::count("static_values_ok", 1);
-                        out::count(&format!("ok_g{}v{}", rec.group, rec.var), 1);
+                out::eval(1);
+                let key = (t, rec.index);
+                let which = if rec.is_event { "event" } else { "static" };
+                if rec.is_event {
+                    if rec.group != EVENT_GROUP[t] {
+                        violations.push(("group".into(), format!("t{t}"), format!("event of type {t} delivered as g{}v{}", rec.group, rec.var)));
+                        continue;
                     }
-                    Err((rule, why)) => violations.push((rule, format!("{which}|g{}v{}", rec.group, rec.var), format!("{why}; source {src:?}; delivered {rec:?}"))),
+                    let Some(src) = pending.get_mut(&key).and_then(|q| q.pop_front()) else {
+                        violations.push(("phantom_event".into(), format!("t{t}"), format!("event {rec:?} for a point without pending updates (shifted to another index?)")));
+                        continue;
+                    };
+                    // the variation asked for explicitly, else the configured event variation (octet strings: by length)
+                    let ev = match want_ev {
+                        Some((tt, v)) if tt == t => v,
+                        _ => layout.iter().find(|l| l.0 == t && l.1 == rec.index).map(|l| l.3).unwrap_or(0),
+                    };
+                    if t != 7 && rec.var != ev {
+                        violations.push(("event_variation".into(), format!("g{}v{}", rec.group, rec.var), format!("event delivered as g{}v{} by read '{what}', expected variation {ev}", rec.group, rec.var)));
+                    } else if want_ev.map(|x| x.0 == t).unwrap_or(false) {
+                        out::count("explicit_event_variation_ok", 1);
+                    }
+                    match judge(&rec, &src) {
+                        Ok(()) => {
+                            out::count("event_values_ok", 1);
+                            out::count(&format!("ok_g{}v{}", rec.group, rec.var), 1);
+                            if rec.group == 2 && rec.var == 3 || rec.group == 4 && rec.var == 3 {
+                                out::count("relative_time_reconstructed_ok", 1);
+                            }
+                        }
+                        Err((rule, why)) => violations.push((rule, format!("{which}|g{}v{}", rec.group, rec.var), format!("{why}; source {src:?}; delivered {rec:?}"))),
+                    }
+                } else {
+                    if rec.group != STATIC_GROUP[t] {
+                        violations.push(("group".into(), format!("t{t}"), format!("static value of type {t} delivered as g{}v{}", rec.group, rec.var)));
+                        continue;
+                    }
+                    // variation: asked for explicitly, else configured; a packed format is promoted to the flagged one for points that are not plainly ONLINE
+                    let sv = match want_sv {
+                        Some((tt, v)) if tt == t => v,
+                        _ => layout.iter().find(|l| l.0 == t && l.1 == rec.index).map(|l| l.2).unwrap_or(0),
+                    };
+                    let promoted = t < 3 && sv == 1 && rec.var == 2;
+                    if t != 7 && rec.var != sv && !promoted {
+                        violations.push(("static_variation".into(), format!("g{}v{}", rec.group, rec.var), format!("static value delivered as g{}v{} by read '{what}', expected variation {sv}", rec.group, rec.var)));
+                    } else if want_sv.map(|x| x.0 == t).unwrap_or(false) {
+                        out::count("explicit_static_variation_ok", 1);
+                    }
+                    let Some(src) = latest.get(&key) else {
+                        // never updated: initial value, nothing to compare
+                        out::count("static_initial_value_skipped", 1);
+                        continue;
+                    };
+                    match judge(&rec, src) {
+                        Ok(()) => {
+                            out::count("static_values_ok", 1);
+                            out::count(&format!("ok_g{}v{}", rec.group, rec.var), 1);
+                        }
+                        Err((rule, why)) => violations.push((rule, format!("{which}|g{}v{}", rec.group, rec.var), format!("{why}; source {src:?}; delivered {rec:?}"))),
+                    }
                 }
             }
         }
